@@ -606,10 +606,8 @@ def m_struct_unpack(interp, fmt, data):
         elif code in "BHILQ":
             if order == "little":
                 seg = list(reversed(seg))
-            tot = z3.IntVal(0)
-            for t in seg:
-                tot = tot * 256 + t
-            out.append(mkint(tot, 8 * size))
+            from .sbytes import terms_to_int
+            out.append(terms_to_int(seg))
         else:
             raise Unmodelled("struct.unpack code %s" % code)
     return tuple(out)
@@ -637,6 +635,7 @@ class ZlibState:
     def __init__(self):
         self.table = {}
         self.n = 0
+        self.nd = 0
 
 
 def _zstate():
@@ -647,14 +646,23 @@ def _zstate():
     return st
 
 
+def _declare(eng, name, kind, obj):
+    eng.inputs[name] = (kind, obj)
+    eng.order.append(name)
+
+
 @model("zlib.compress")
 def m_compress(interp, data, level=-1, **kw):
+    """contract: compress(x) is some byte string of length >= 1 from which decompress() recovers x"""
     st = _zstate()
     eng = E.current()
     st.n += 1
     name = "zlib%d" % st.n
     ln = z3.Int("%s.len" % name)
-    eng.add(ln >= 1)
+    src = SymBytes.lift(data)
+    # deflate's worst case adds 5 bytes per 16 KiB block plus 11 bytes of framing: len+64 covers inputs < 160 KiB
+    eng.add(z3.And(ln >= 1, ln <= iterm(src.length()) + 64))
+    _declare(eng, "%s.len" % name, "int", SymInt(ln))
     st.table[name] = (SymBytes.lift(data).with_kind("bytes"), ln)
     return SymBytes.opaque(name, SymInt(ln))
 
@@ -672,12 +680,51 @@ def m_decompress(interp, data, *a, **kw):
         if eng.branch(whole):
             return orig
     # anything else: not something compress() produced -> error, or arbitrary bytes
-    if eng.branch(eng.fresh("zlib_garbage_ok", "bool")):
-        st.n += 1
-        ln = eng.fresh("garbage.len", "int")
-        eng.add(ln >= 0)
-        return SymBytes.opaque("garbage%d" % st.n, SymInt(ln))
+    st.nd += 1
+    okv = z3.Bool("zlibdec%d.ok" % st.nd)
+    _declare(eng, "zlibdec%d.ok" % st.nd, "bool", SymBool(okv))
+    if eng.branch(okv):
+        ln = z3.Int("zlibdec%d.len" % st.nd)
+        eng.add(z3.And(ln >= 0, ln <= 64))
+        _declare(eng, "zlibdec%d.len" % st.nd, "int", SymInt(ln))
+        return SymBytes.opaque("zlibdec%d" % st.nd, SymInt(ln))
     raise zlib.error("Error -3 while decompressing data: incorrect header check")
+
+
+class ContractZlib:
+    """native counterpart of the zlib model for replays: lengths/outcomes come from the witness"""
+
+    def __init__(self, S):
+        self.S = S
+        self.n = 0
+        self.nd = 0
+        self.table = {}
+        self.real_compress = zlib.compress
+        self.real_decompress = zlib.decompress
+
+    def compress(self, data, level=-1, **kw):
+        from .sbytes import stream_content
+        self.n += 1
+        name = "zlib%d" % self.n
+        ln = self.S.values.get(name + ".len")
+        if ln is None:
+            return self.real_compress(data, level)
+        out = stream_content(name, int(ln))
+        self.table[out] = bytes(data)
+        return out
+
+    def decompress(self, data, *a, **kw):
+        from .sbytes import stream_content
+        data = bytes(data)
+        if data in self.table:
+            return self.table[data]
+        self.nd += 1
+        ok = self.S.values.get("zlibdec%d.ok" % self.nd)
+        if ok is None:
+            return self.real_decompress(data, *a, **kw)
+        if ok:
+            return stream_content("zlibdec%d" % self.nd, int(self.S.values.get("zlibdec%d.len" % self.nd, 0)))
+        raise zlib.error("Error -3 while decompressing data: incorrect header check")
 
 
 # ---- logging & friends: empty bodies ------------------------------------------------------------
